@@ -340,6 +340,78 @@ theorem C18_default_mapping_pinned_witness :
       remapEntries {} none [[Str.ofString "# nothing to remap"]] fl [d1, d2] = some [d1, d2] := by
   decide
 
+/-! ## tag lists as live objects: `mergeProductList` -/
+
+/-- every listed product has its `[flavor, version, …]` record (what `addProduct` maintains) -/
+def WFList (t : TagList) : Prop := ∀ p ∈ t.products, ∃ fl ver ex, assocGet t.info p = some (fl :: ver :: ex)
+
+theorem addProduct_info_same (t : TagList) (p v : Str) (fl : Str) (ex : List Str) :
+    (t.addProduct p v (some fl) ex).getProductInfo p = some (fl :: v :: ex) := by
+  simp [TagList.addProduct, TagList.getProductInfo, assocGet_assocSet_same]
+
+theorem addProduct_info_other (t : TagList) (p v : Str) (fl : Option Str) (ex : List Str) (q : Str) (h : q ≠ p) :
+    (t.addProduct p v fl ex).getProductInfo q = t.getProductInfo q := by
+  simp [TagList.addProduct, TagList.getProductInfo, assocGet_assocSet_other _ _ _ _ h]
+
+/-- **`mergeProductList` takes the other list's entries and keeps the rest.**  For every list `t` and every
+well-formed list `o`: after `t.mergeProductList(o)` each product of `o` has, in `t`, exactly the record it has in `o`
+(flavor, version, extra words), and what `t` says about any other product is unchanged. -/
+theorem C18_taglist_merge (t o : TagList) (hwf : WFList o) (q : Str) :
+    (t.mergeProductList o).getProductInfo q =
+      if q ∈ o.products then o.getProductInfo q else t.getProductInfo q := by
+  unfold TagList.mergeProductList TagList.getProducts
+  have key : ∀ (ps : List Str) (t : TagList), (∀ p ∈ ps, ∃ fl ver ex, assocGet o.info p = some (fl :: ver :: ex)) →
+      ((ps.map fun p => p :: (assocGet o.info p).getD []).foldl (fun t row =>
+          match row with
+          | p :: fl :: ver :: extra => t.addProduct p ver (some fl) extra
+          | _ => t) t).getProductInfo q =
+        if q ∈ ps then o.getProductInfo q else t.getProductInfo q := by
+    intro ps
+    induction ps with
+    | nil => intro t _; simp
+    | cons p rest ih =>
+      intro t hps
+      obtain ⟨fl, ver, ex, hinfo⟩ := hps p (by simp)
+      simp only [List.map_cons, List.foldl_cons, hinfo, Option.getD_some]
+      rw [ih _ (fun r hr => hps r (by simp [hr]))]
+      by_cases hq : q ∈ rest
+      · simp [hq]
+      · by_cases hqp : q = p
+        · subst hqp
+          have h1 := addProduct_info_same t q ver fl ex
+          simp only [TagList.getProductInfo] at h1
+          simp [hq, TagList.getProductInfo, hinfo, h1]
+        · simp [hq, hqp, addProduct_info_other _ _ _ _ _ _ hqp]
+  exact key o.products t hwf
+
+/-- `addProduct` keeps a list well formed, so every list built by the API is -/
+theorem C18_taglist_wf_add (t : TagList) (h : WFList t) (p v : Str) (fl : Option Str) (ex : List Str) :
+    WFList (t.addProduct p v fl ex) := by
+  intro q hq
+  by_cases hqp : q = p
+  · subst hqp
+    exact ⟨fl.getD t.flavor, v, ex, by simp [TagList.addProduct, assocGet_assocSet_same]⟩
+  · have hq' : q ∈ t.products := by
+      simp only [TagList.addProduct] at hq
+      split at hq
+      · exact hq
+      · rcases List.mem_append.mp hq with h1 | h1
+        · exact h1
+        · simp at h1; exact absurd h1 hqp
+    obtain ⟨a, b, c, hi⟩ := h q hq'
+    exact ⟨a, b, c, by simp [TagList.addProduct, assocGet_assocSet_other _ _ _ _ hqp, hi]⟩
+
+/-- Non-vacuity: `afw` is updated from the other list, `python` comes in, `boost` stays. -/
+example :
+    let t := ((TagList.empty (Str.ofString "current") (some (Str.ofString "Linux"))).addProduct (Str.ofString "afw")
+      (Str.ofString "1.0") none []).addProduct (Str.ofString "boost") (Str.ofString "1.4") none []
+    let o := ((TagList.empty (Str.ofString "current") none).addProduct (Str.ofString "python")
+      (Str.ofString "2.6") (some (Str.ofString "Linux64")) [Str.ofString "x"]).addProduct (Str.ofString "afw") (Str.ofString "2.0") none []
+    (t.mergeProductList o).getProducts =
+      [[Str.ofString "afw", sGeneric, Str.ofString "2.0"], [Str.ofString "boost", Str.ofString "Linux", Str.ofString "1.4"],
+       [Str.ofString "python", Str.ofString "Linux64", Str.ofString "2.6", Str.ofString "x"]] := by
+  decide
+
 /-! ## the `dummy` branch of `remapEntries` -/
 
 /-- an entry that makes `remapEntries` look for (and, if it is missing, declare) the product `pn` in version `dummy`:
